@@ -45,6 +45,10 @@ def _poison(d, rng, only=None):
   for name, v in _fields(d):
     if name in STATE or name in STATIC or not v.size:
       continue
+    if name == "overflow":
+      # sticky report bits (or-ed by every step, cleared only by reset_data): garbage here is not scratch, it would only make the
+      # oracle skip the case as "overflow reported"
+      continue
     if only is not None and name not in only:
       continue
     a = v.numpy()
